@@ -113,8 +113,12 @@ class RandomTap:
                 res.append(population[0])
         else:
             res = self.rng.choices(population, weights=weights, cum_weights=cum_weights, k=k)
-        self._ev("choices", (list(population), list(weights) if weights is not None else None, k)
-                 if self.keep_log else None, list(res) if self.keep_log else None)
+        if self.keep_log:
+            w = list(weights) if weights is not None else None
+            if w is None and cum_weights is not None:
+                cw = list(cum_weights)
+                w = [cw[0]] + [b - a for a, b in zip(cw, cw[1:])]
+        self._ev("choices", (list(population), w, k) if self.keep_log else None, list(res) if self.keep_log else None)
         return res
 
     def random(self):
